@@ -294,3 +294,8 @@ package profile
 //@   ensures [C13:list-encoded-twice] exists q []string :: len(q) == len(r.Argument) && (forall j int :: 0 <= j && j < len(r.Argument) ==> q[j] == jsonQuote(r.Argument[j])) && "\"" + result + "\"" == jsonQuote("[" + strJoin(q, ",") + "]")
 //@   loop 1 /* for i, v := range r.Argument */
 //@     invariant [C13] len(acc) == len(r.Argument) && (forall j int :: 0 <= j && j < #i ==> acc[j] == jsonQuote(r.Argument[j]))
+
+// ---- operator symbols (C07): the text written into the generated comparisons ---------------------------------------------
+
+//@ func (op CardinalityOperation) String() string
+//@   ensures [C07:operator-symbols] (op == GTEQ ==> result == ">=") && (op == GT ==> result == ">") && (op == EQ ==> result == "=") && (op == NEQ ==> result == "!=") && (op == LT ==> result == "<") && (op == LTEQ ==> result == "<=")
